@@ -20,6 +20,13 @@ class Giveup(Exception):
     pass
 
 
+def fidx(v, name):
+    """position of field `name` in an aggregate value (named struct fields carry their names)"""
+    if len(v) > 3 and v[3] and name in v[3]:
+        return list(v[3]).index(name)
+    return int(name)
+
+
 class Walk:
     def __init__(self, fn, scenario):
         self.fn = fn
@@ -88,7 +95,7 @@ class Walk:
             if st[0] == "f":
                 if isinstance(v, tuple) and v[0] == "agg":
                     try:
-                        v = v[1][int(st[1])]
+                        v = v[1][fidx(v, st[1])]
                     except Exception:
                         raise Giveup("field %r" % (st,))
                 elif isinstance(v, tuple) and v[0] == "pair" and str(st[1]) in ("0", "1"):
@@ -122,12 +129,22 @@ class Walk:
         off = 0
         for st in path[:-1]:
             if st[0] == "f" and isinstance(v, tuple) and v[0] == "agg":
-                v = v[1][int(st[1])]
+                try:
+                    v = v[1][fidx(v, st[1])]
+                except Exception:
+                    raise Giveup("store through %r" % (st,))
             elif st[0] == "win" and isinstance(v, list):
                 off += st[1]
             else:
                 raise Giveup("store through %r" % (st,))
         last = path[-1]
+        if last[0] == "f" and isinstance(v, tuple) and v[0] == "agg" and not off:
+            # a field of a local struct (a buffer kept with its fill level)
+            try:
+                v[1][fidx(v, last[1])] = val
+            except Exception:
+                raise Giveup("store to %r" % (path,))
+            return
         if last[0] == "i" and isinstance(v, list):
             i = off + last[1]
             if not (0 <= i < len(v)):
@@ -204,7 +221,8 @@ class Walk:
             fs = [self.operand(f) for f in rv["fields"]]
             if rv.get("agg") == "array":
                 return [(x[1] if isinstance(x, tuple) and x[0] == "int" else x) for x in fs]
-            return ("agg", fs, rv.get("variant"))
+            names = rv.get("field_names") or None
+            return ("agg", fs, rv.get("variant"), tuple(names)) if names and len(names) == len(fs) else ("agg", fs, rv.get("variant"))
         if k == "cast":
             return self.operand(rv["a"])
         if k == "bin":
